@@ -219,6 +219,25 @@ class Extract:
                 self.env[b_[0][1]] = oe[0]
                 guards.append(oe[1])
                 return
+        if p.get("k") == "tuple" and i.get("k") == "blk" and i["b"]["stmts"] and i["b"]["tail"] is not None and i.get("lbl") is None:
+            # `let (a, b) = { S..; (x, y) }` (an inlined helper returning a pair): run S.., then a := x, b := y
+            t_ = strip(i["b"]["tail"])
+            if t_ is not None and t_.get("k") == "tup" and len(t_["xs"]) == len(p["ps"]):
+                self.block({"k": "block", "stmts": i["b"]["stmts"], "tail": None}, getattr(self, "_cur_loops", []), guards)
+                for q, e in zip(p["ps"], t_["xs"]):
+                    while q.get("k") in ("ref", "deref"):
+                        q = q["p"]
+                    if q.get("k") != "bind":
+                        continue
+                    e0 = strip(e)
+                    if e0.get("k") == "local" and e0["hid"] in self.acc_init:
+                        self.env[q["hid"]] = Rat.atom("%s#%d" % (e0["name"], e0["hid"]))
+                    else:
+                        try:
+                            self.env[q["hid"]] = self.plain(e)
+                        except ValueError:
+                            pass
+                return
         if p.get("k") == "bind":
             # `let t = &mut A[idx]`: alias of an array cell
             raw = init
@@ -240,6 +259,24 @@ class Extract:
                     el = strip(el["b"]["tail"])
                 el_stmts = el["b"]["stmts"] if el.get("k") == "blk" else [el]
                 exits = el.get("k") in ("continue", "break") or (len(el_stmts) == 1 and strip(el_stmts[0]).get("k") in ("continue", "break"))
+                if cn.get("k") == "letx" and exits:
+                    # `let v = if let Some(x) = <option expr> { x } else { continue };`
+                    pp = cn["pat"]
+                    while pp.get("k") in ("ref", "deref"):
+                        pp = pp["p"]
+                    th = strip(i["th"])
+                    while th is not None and th.get("k") == "blk" and not th["b"]["stmts"] and th["b"]["tail"] is not None:
+                        th = strip(th["b"]["tail"])
+                    pb_ = pat_binds(pp)
+                    if pp.get("k") == "tstruct" and pp["path"].endswith("::Some") and len(pb_) == 1 and th is not None and th.get("k") == "local" and th["hid"] == pb_[0][1]:
+                        try:
+                            oe = self.opt_expr(cn["init"])
+                        except ValueError:
+                            oe = None
+                        if oe is not None:
+                            self.env[p["hid"]] = oe[0]
+                            guards.append(oe[1])
+                            return
                 if cn.get("k") == "bin" and cn["op"] in ("Ge", "Le", "Gt", "Lt") and exits:
                     try:
                         g = self.plain(cn)
@@ -333,6 +370,7 @@ class Extract:
     def stmt(self, s, loops, guards):
         k = s.get("k")
         if k == "let":
+            self._cur_loops = loops
             self.bind_let(s, guards)
             return
         if k == "for":
@@ -391,6 +429,14 @@ class Extract:
             self.block(s["b"], loops, guards)
             return
         if k in ("assign", "assignop"):
+            r0 = s["r"]
+            while r0 is not None and r0.get("k") == "blk" and not r0["b"]["stmts"] and r0["b"]["tail"] is not None:
+                r0 = r0["b"]["tail"]
+            if r0 is not None and r0.get("k") == "blk" and r0["b"]["stmts"] and r0["b"]["tail"] is not None and r0.get("lbl") is None:
+                # `T = { S..; e }` (e.g. an inlined helper that accumulates and returns its sum)  ==  `S..; T = e`
+                self.block({"k": "block", "stmts": r0["b"]["stmts"], "tail": None}, loops, guards)
+                s = dict(s)
+                s["r"] = r0["b"]["tail"]
             st = Stmt()
             st.node = s
             st.op = "=" if k == "assign" else {"Add": "+=", "Sub": "-=", "Mul": "*=", "Div": "/="}.get(s["op"].replace("Assign", ""), s["op"])
